@@ -9,7 +9,8 @@
    A CALL is    convert(t, v) -> wire form -> convert back -> v'     and the property demands  v' = v
    "as a value of type t".  This module fixes
 
-     (1) the TYPES: the grammar of Hail types to nesting depth 2 (records [k |-> kind, ...]),
+     (1) the TYPES: the grammar of Hail types to nesting depth 2 (records [k |-> kind, ...]; thorough tier, Level = 1:
+         depth 3 for the named combinations Deep3All and the harness's seeded draws),
      (2) the VALUES of every type: abstract trees; leaves are SYMBOLIC names ("i64max", "nan", "negzero",
          "nonascii", "c10p", ...) because TLC has neither 64-bit integers, floats nor Unicode strings - the
          harness owns the table  name <-> concrete Python object  (checks/_typedvalues.py), TLC owns which
@@ -43,6 +44,7 @@
      TypedValuesSelf     ASSUME SelfCheck   the equality is reflexive on the universe and separates distinct
                                             values (exhaustive over the core universe, before any binding)
      TypedValuesGen      ASSUME Gen         TLC enumerates the <<type, value>> pairs for the harness
+     TypedValuesGenChunks ASSUME GenChunks  the same enumeration, one file per type (what the checks run)
      TypedValuesVerdict  ASSUME Verdict     TLC judges every recorded call of the real code              *)
 EXTENDS Integers, Sequences, SequencesExt, FiniteSets, TLC, Json, IOUtils
 
@@ -396,7 +398,9 @@ Deep3 == {TArr(TStruct(<<"a", "b">>, <<LocT, TIv(LocT)>>)),
           TStruct(<<"value", "sp">>, <<TDict(TIv(P("int32")), TSet(P("call"))), TArr(TArr(P("float32")))>>),
           TSet(TDict(P("str"), TArr(P("bool"))))}
 MaxDepth  == IF Level = 0 THEN 2 ELSE 3
-CoreTypes == D0 \cup T1 \cup T2 \cup Named2 \cup (IF Level = 0 THEN {} ELSE Deep3)
+\* ... and one construction of every kind around each named depth-2 combination
+Deep3All  == Deep3 \cup Over2(Named2)
+CoreTypes == D0 \cup T1 \cup T2 \cup Named2 \cup (IF Level = 0 THEN {} ELSE Deep3All)
 
 \* NOTE for TLC: zero-arity constant definitions are evaluated when the module is loaded, by every module that
 \* extends this one; everything expensive or with side effects therefore takes a dummy argument.
@@ -406,8 +410,16 @@ CoreTypes == D0 \cup T1 \cup T2 \cup Named2 \cup (IF Level = 0 THEN {} ELSE Deep
 ExtraTypes(u) == LET extra == ndJsonDeserialize(IOEnv.TV_EXTRA) IN {extra[i].t : i \in 1 .. Len(extra)}
 Types(u)      == CoreTypes \cup ExtraTypes(u)
 Pairs(u)      == UNION {{[t |-> t, v |-> v] : v \in Opt(Vals(t, 2))} : t \in Types(u)}
-Gen(u) == /\ \A t \in ExtraTypes(u) : IsType(t) /\ Depth(t) <= 2
+Gen(u) == /\ \A t \in ExtraTypes(u) : IsType(t) /\ Depth(t) <= MaxDepth
           /\ ndJsonSerialize(IOEnv.TV_INPUTS, SetToSeq(Pairs(u)))
+\* the same enumeration written type by type (file <TV_INPUTS>.<i> for the i-th type, <TV_INPUTS>.n = number of files):
+\* TLC never has to build (and normalise) the set of ALL pairs, which dominates the cost of Gen for the thorough universe
+GenChunks(u) ==
+  LET ts == SetToSeq(Types(u)) IN
+  /\ \A t \in ExtraTypes(u) : IsType(t) /\ Depth(t) <= MaxDepth
+  /\ \A i \in 1 .. Len(ts) :
+        ndJsonSerialize(IOEnv.TV_INPUTS \o "." \o ToString(i), SetToSeq({[t |-> ts[i], v |-> v] : v \in Opt(Vals(ts[i], 2))}))
+  /\ ndJsonSerialize(IOEnv.TV_INPUTS \o ".n", <<[n |-> Len(ts)]>>)
 
 (* ------------------------------------------------------------------------------------------------ *)
 (* SelfCheck (before any binding): on the core universe of depth <= 1                                 *)
@@ -419,8 +431,8 @@ SelfTypes == D0 \cup T1
 SelfCheck(dummy) ==
   /\ \A t \in CoreTypes : IsType(t) /\ Depth(t) <= MaxDepth
   /\ \A t \in Named2 : Depth(t) = 2
-  /\ Level = 0 \/ \A t \in Deep3 : Depth(t) = 3
-  /\ \A t \in SelfTypes \cup Named2 \cup (IF Level = 0 THEN {} ELSE Deep3) :
+  /\ Level = 0 \/ \A t \in Deep3All : Depth(t) = 3
+  /\ \A t \in SelfTypes \cup Named2 \cup (IF Level = 0 THEN {} ELSE Deep3All) :
         \A v \in Opt(Vals(t, 2)) : WellTyped(t, v) /\ Match(t, v, Echo(t, v))
   /\ \A t \in {u \in SelfTypes : ~HasNd(u)} : \A v \in Opt(Vals(t, 1)) : \A u \in Opt(Vals(t, 1)) :
         Match(t, v, Echo(t, u)) => Key(t, u) = Key(t, v)
